@@ -78,6 +78,9 @@ def views_ok(si: int) -> bool:
                 items = list(t.contents)[::-1]
                 expi = [k for k in items if rm.is_element(k) and rm.ref_match(lst, k, html=html, custom=CUSTOM_AST)]
                 ok = ok and _ids(c.filter(items)) == _ids(expi)
+                ok = ok and _ids(c.filter(tuple(items))) == _ids(expi) and _ids(c.filter(iter(items))) == _ids(expi)
+                ok = ok and _ids(c.filter(x for x in items)) == _ids(expi)
+                ok = ok and _ids(sv.filter(TEXTS[si], (x for x in items), custom=CUSTOM_TXT)) == _ids(expi)
                 if rm.is_element(t):
                     # match / closest
                     ok = ok and bool(c.match(t)) == rm.ref_match(lst, t, html=html, custom=CUSTOM_AST)
